@@ -14,7 +14,8 @@ import ArcaModel.Model.Ops
   The model mirrors the code that exists, oddities included: a non-pointer field always counts as
   set; `reflect.Value.Convert` turns integers
   into one-rune strings; a property mapped to an unexported field is an error in Unserialize and a
-  panic in Validate / Serialize.
+  panic in Validate / Serialize; a disabled property reads as unset while its field holds the zero
+  value.
   Core Lean only (this file is linked into the native driver).
 -/
 namespace Arca
@@ -319,13 +320,19 @@ def fieldValue (src : GoTy) (fv : SV) : SV :=
   | .ptr e => if src.isPtr then fv else e
   | _ => fv
 
+/-- `reflect.Value.IsZero()` of a value of static type `vty`: a non-nil interface is not zero,
+    otherwise the zero value (floats compare with `== 0`, nil slices / maps / pointers) -/
+def reflIsZero (vty : GoTy) (x : SV) : Bool := vty != .iface && x.isZero
+
 /-- `getFieldReflection` and the treat-empty-as-default test: the value a property reads from its
     field, `none` = the property counts as unset. `src` is the property's reflected type.
-    (`IsNil` works on unexported fields, `Interface()` panics on them.) -/
-def readField (f : Field) (src : GoTy) (emptyIsDefault : Bool) (fv : SV) : Out (Option SV) :=
+    (`IsNil` works on unexported fields, `Interface()` panics on them; a DISABLED property whose
+    field holds the zero value is not set.) -/
+def readField (f : Field) (src : GoTy) (disabled emptyIsDefault : Bool) (fv : SV) : Out (Option SV) :=
   if fv.isNilPtr then .ok none
   else if !f.exported then .panic
   else if (fieldValue src fv).isNilIface then .ok none
+  else if disabled && reflIsZero (elemTy f.ty src) (fieldValue src fv) then .ok none
   else if emptyIsDefault then
     (emptyLike (elemTy f.ty src) src (fieldValue src fv)).bind fun e =>
       .ok (if e then none else some (fieldValue src fv))
@@ -342,7 +349,7 @@ def fromStruct (st : StructTy) : List (String × SProp) → List (String × SV) 
       match lookupS f.name fs with
       | none => .cerr
       | some fv =>
-        (readField f (reflTy p.ty) p.emptyIsDefault fv).bind fun o =>
+        (readField f (reflTy p.ty) p.disabled p.emptyIsDefault fv).bind fun o =>
           (fromStruct st rest fs).bind fun m =>
             .ok (match o with | some x => (k, x) :: m | none => m)
 
@@ -611,6 +618,8 @@ def sobjRaw (rec : SRec) (fuel : Nat) (props : List (String × SProp)) (s : SV) 
     match strKeys? kvs with
     | none => .cerr
     | some skvs =>
+      -- (a Go map has no two equal keys: a value with a repeated key is not a Go value)
+      if !(decide (skvs.map (·.1)).Nodup) then .cerr else
       if skvs.any (fun kv => !(hasKey kv.1 props)) then .cerr else
       (applyDefaultsS fuel props skvs).bind fun m => forSVS (entryUS rec props) m
 
